@@ -115,9 +115,13 @@ def sym_msgs(n, maxlen, prefix='m', types=True):
     return msgs
 
 
-def l92(n, keyed):
+def l92(n, keyed, tiny=False):
     h = sym_header()
-    msgs = sym_msgs(n, 1500)
+    if tiny:
+        # the maximum message count: n empty / one-byte payloads, symbolic seqs
+        msgs = [PendingMessage(SeqNum(symint('m%d_seq' % i, 0, 65535)), PacketType.APP, b'' if i % 2 else b'x', None, RetryMode.NONE) for i in range(n)]
+    else:
+        msgs = sym_msgs(n, 1500)
     total = sum(rope.sx_len(m.payload) for m in msgs) + Packet.overhead(n)
     assume(total <= 65535)
     if n == 1:
@@ -157,6 +161,9 @@ def replay_l92(cfg, m):
     h.ack_bits = m['h_ack_bits']
     msgs = []
     for i in range(n):
+        if cfg.get('tiny'):
+            msgs.append(c.PendingMessage(c.SeqNum(m.get('m%d_seq' % i, 0)), c.PacketType.APP, b'' if i % 2 else b'x', None, 0))
+            continue
         t = c.PacketType(m['m%d_type' % i])
         msgs.append(c.PendingMessage(c.SeqNum(m['m%d_seq' % i]), t, os.urandom(m['m%d_len' % i]), None, 0))
     key = KEY if keyed else None
@@ -176,13 +183,15 @@ def replay_l92(cfg, m):
 
 def l92_instances(tier):
     ns = [0, 1, 2, 3] if tier == 'quick' else [0, 1, 2, 3, 4, 5, 6]
-    return [dict(n=n, keyed=k) for n in ns for k in (False, True)]
+    out = [dict(n=n, keyed=k) for n in ns for k in (False, True)]
+    out += [dict(n=255, keyed=k, tiny=True) for k in ((True,) if tier == 'quick' else (False, True))]
+    return out
 
 
 R.add('L9.2', l92, l92_instances, replay=replay_l92,
       desc='Packet.create/to_bytes/from_bytes round trip, CRC and AEAD form, symbolic seqs/types/lengths/contents',
       expect=['message payload round-trips', 'total_size == len(to_bytes)'],
-      bounds='n messages in {0..3} (thorough 0..6), payload lengths 0..1500 each, total <= 65535')
+      bounds='n messages in {0..3} (thorough 0..6) with payload lengths 0..1500 each, total <= 65535; plus n = 255 tiny messages')
 
 
 # ------------------------------------------------------------------ L9.3 / L9.4 / L9.5 packing
